@@ -995,6 +995,132 @@ Proof.
   apply IH; auto. apply all_vals_update_key; auto.
 Qed.
 
+(* ================================================================== ranks written by Sort *)
+Lemma set_ranks_untouched ord : forall idx m k,
+  ~ In k (map p_owner ord) -> aget k (set_ranks idx ord m) = aget k m.
+Proof.
+  induction ord as [|x ord IH]; intros idx m k Hk; simpl; [reflexivity|].
+  rewrite IH by (simpl in Hk; tauto). rewrite aget_update_key.
+  destruct (N.eqb k (p_owner x)) eqn:Eq; [|reflexivity].
+  apply N.eqb_eq in Eq. simpl in Hk. exfalso. apply Hk. left. congruence.
+Qed.
+
+Lemma set_ranks_rank ord : forall idx m j x,
+  NoDup (map p_owner ord) -> (forall y, In y ord -> In (p_owner y) (keys m)) ->
+  nth_error ord j = Some x ->
+  exists p, aget (p_owner x) (set_ranks idx ord m) = Some p /\ p_rank p = idx + Z.of_nat j.
+Proof.
+  induction ord as [|y ord IH]; intros idx m j x Hnd Hin Hj; [destruct j; discriminate|].
+  simpl in Hnd. inversion Hnd; subst. simpl.
+  destruct j as [|j]; simpl in Hj.
+  - inversion Hj; subst y. rewrite set_ranks_untouched by assumption.
+    rewrite aget_update_key, N.eqb_refl.
+    destruct (proj2 (aget_In_keys (p_owner x) m) (Hin x (or_introl eq_refl))) as [p0 Hp0].
+    rewrite Hp0. simpl. eexists. split; [reflexivity|]. simpl. lia.
+  - destruct (IH (idx + 1) (update_key (p_owner y) (set_rank idx) m) j x H2) as (p & Hp & Hr).
+    + intros z Hz. rewrite keys_update_key. apply Hin. right; assumption.
+    + assumption.
+    + exists p. split; [assumption|]. lia.
+Qed.
+
+Lemma nth_error_firstn_ge {A} n (l : list A) j x :
+  nth_error l j = Some x -> NoDup l -> ~ In x (firstn n l) -> (n <= j)%nat.
+Proof.
+  intros Hj Hnd Hnin. destruct (le_lt_dec n j) as [H|H]; [assumption|]. exfalso. apply Hnin.
+  rewrite <- (firstn_skipn n l) in Hj.
+  assert (Hlen : (j < length (firstn n l))%nat).
+  { rewrite firstn_length.
+    assert (Hj2 : (j < length (firstn n l ++ skipn n l))%nat) by (apply nth_error_Some; congruence).
+    rewrite app_length, firstn_length, skipn_length in Hj2. lia. }
+  rewrite nth_error_app1 in Hj by assumption. eapply nth_error_In; eassumption.
+Qed.
+
+(* ================================================================== P-Reps that appear during the term *)
+Section Ghost.
+Variables br limit : Z.
+Hypothesis Hbr : 0 <= br.
+
+(* PRepInfo.Add(target, status, 0, 0, 0, false) *)
+Definition ghost0 (k : addr) (st : Z) : prep := prep_update_power br (new_prep k st 0 0 0 false).
+
+Lemma pi_apply_votes_create k ty o vs : forall pi,
+  aget k (pi_preps pi) = None ->
+  (aget k (pi_preps (pi_apply_vote br limit ty vs o pi)) = None /\ ~ In k (map fst vs))
+  \/ aget k (pi_preps (pi_apply_vote br limit ty vs o pi))
+     = Some (fold_left (vote_step br limit k ty o) vs (ghost0 k ES_DisablePermanent)).
+Proof.
+  unfold pi_apply_vote. induction vs as [|[to a] vs IH]; intros pi Hk; cbn [fold_left].
+  - left. split; [assumption|simpl; tauto].
+  - destruct (N.eqb to k) eqn:Eq.
+    + apply N.eqb_eq in Eq; subst to. right.
+      assert (Hs : aget k (pi_preps (pi_apply_one br limit ty o pi (k, a)))
+                   = Some (prep_apply_vote ty a (limit - o) br (ghost0 k ES_DisablePermanent))).
+      { unfold pi_apply_one. rewrite Hk. simpl. rewrite aget_update_key, N.eqb_refl, aget_aset_same. reflexivity. }
+      pose proof (pi_apply_vote_get br limit ty o vs _ k _ Hs) as Hg. unfold pi_apply_vote in Hg. rewrite Hg.
+      do 2 f_equal. unfold vote_step. cbn [fst snd]. rewrite N.eqb_refl. reflexivity.
+    + assert (Hn : aget k (pi_preps (pi_apply_one br limit ty o pi (to, a))) = None).
+      { unfold pi_apply_one. apply N.eqb_neq in Eq.
+        destruct (aget to (pi_preps pi)); simpl; rewrite aget_update_key;
+        (destruct (N.eqb k to) eqn:E2; [apply N.eqb_eq in E2; congruence|]);
+        [assumption|rewrite aget_aset_other by congruence; assumption]. }
+      destruct (IH _ Hn) as [[H1 H2]|H1].
+      * left. split; [assumption|]. simpl. apply N.eqb_neq in Eq. intros [H|H]; [congruence|tauto].
+      * right. rewrite H1. do 2 f_equal. unfold vote_step. cbn [fst snd]. rewrite Eq. reflexivity.
+Qed.
+
+Lemma process_event_create k pi oe :
+  aget k (pi_preps pi) = None ->
+  (aget k (pi_preps (process_event br limit pi oe)) = None
+   /\ ev_amount VBond k oe = 0 /\ ev_amount VDelegate k oe = 0)
+  \/ exists st, aget k (pi_preps (process_event br limit pi oe)) = Some (prep_step br limit k (ghost0 k st) oe).
+Proof.
+  intros Hk. destruct oe as [o [t st|ty from vs]]; simpl.
+  - unfold pi_set_status. destruct (N.eqb t k) eqn:Eq.
+    + apply N.eqb_eq in Eq; subst t. right. exists st. rewrite Hk. unfold pi_add. simpl.
+      rewrite aget_aset_same. reflexivity.
+    + left. apply N.eqb_neq in Eq. split; [|split; reflexivity].
+      destruct (aget t (pi_preps pi)); simpl; rewrite aget_aset_other by congruence; assumption.
+  - destruct (pi_apply_votes_create k ty o vs pi Hk) as [[H1 H2]|H1].
+    + left. split; [assumption|]. unfold ev_amount. simpl. rewrite amount_to_notin by assumption.
+      split; destruct (vtype_eqb ty _); reflexivity.
+    + right. exists ES_DisablePermanent. assumption.
+Qed.
+
+Lemma pinv_ghost0 k st o : o <= limit -> pinv br limit o (ghost0 k st).
+Proof.
+  intros Ho. pose proof (calc_power_bounds br Hbr 0 0 ltac:(lia) ltac:(lia)) as Hc.
+  unfold pinv, prep_calc_power, p_voted.
+  change (p_bonded (ghost0 k st)) with 0. change (p_delegated (ghost0 k st)) with 0.
+  change (p_power (ghost0 k st)) with (calc_power br 0 0).
+  change (p_accp (ghost0 k st)) with 0. change (p_accv (ghost0 k st)) with 0.
+  change (0 + 0) with 0. assert (Hc0 : calc_power br 0 0 = 0) by lia. rewrite Hc0. repeat split; lia.
+Qed.
+
+Lemma ghost_inv k : forall evs pi o,
+  aget k (pi_preps pi) = None ->
+  run_ok (ev_amount VBond k) (ev_amount VDelegate k) evs 0 0 ->
+  offsets_ok o limit evs = true -> forallb event_ok evs = true -> o <= limit ->
+  match aget k (pi_preps (fold_left (process_event br limit) evs pi)) with
+  | None => True
+  | Some p => exists o', o' <= limit /\ pinv br limit o' p
+  end.
+Proof.
+  induction evs as [|oe evs IH]; intros pi o Hk Hrun Hoff Hev Hol.
+  - simpl. rewrite Hk. exact I.
+  - simpl fold_left. destruct (process_event_create k pi oe Hk) as [(Hn & Hb0 & Hd0)|[st Hs]].
+    + destruct oe as [o' ev]. simpl in Hoff. apply andb_true_iff in Hoff as [Hoff Hoff3]. apply andb_true_iff in Hoff as [Hoff1 Hoff2].
+      simpl in Hev. apply andb_true_iff in Hev as [_ Hev2].
+      destruct Hrun as (_ & _ & Hrun). rewrite Hb0, Hd0 in Hrun. simpl in Hrun.
+      apply (IH _ o'); try assumption; lia.
+    + rewrite (process_events_get br limit evs _ k _ Hs).
+      change (fold_left (prep_step br limit k) evs (prep_step br limit k (ghost0 k st) oe))
+        with (fold_left (prep_step br limit k) (oe :: evs) (ghost0 k st)).
+      apply (prep_fold_inv br limit Hbr k (oe :: evs) (ghost0 k st) o); try assumption.
+      apply pinv_ghost0; assumption.
+Qed.
+
+End Ghost.
+
 (* ================================================================== well-formed terms, unpacked *)
 Definition votes_wf (vs : votes) : Prop :=
   NoDup (map fst vs) /\ forall x, In x vs -> 0 < snd x.
@@ -1670,6 +1796,103 @@ Proof.
     split; [|lia]. rewrite sumZ_zero; [lia|]. intros v _. apply share_outside; assumption.
 Qed.
 
+(* ------------------------------------------------------------------ no division by zero *)
+Lemma PI0_keys : keys (pi_preps PI0) = map v_addr (i_voted i).
+Proof.
+  rewrite load_unfold. unfold pi_init_accumulated. simpl.
+  rewrite keys_fold_update. unfold pi_sort. simpl. rewrite keys_set_ranks. apply PIa_facts.
+Qed.
+
+Lemma loaded_rank j k : nth_error (pi_rank PI0) j = Some k ->
+  exists s, aget k (pi_preps PI0) = Some s /\ p_rank s = Z.of_nat j.
+Proof.
+  intros Hj.
+  set (ord := sort_preps (map snd (pi_preps PIa))).
+  assert (Hrk : pi_rank PI0 = map p_owner ord) by reflexivity.
+  rewrite Hrk, nth_error_map in Hj. destruct (nth_error ord j) as [x|] eqn:Ex; [|discriminate].
+  simpl in Hj. inversion Hj; subst k.
+  destruct (set_ranks_rank ord 0 (pi_preps PIa) j x) as (p & Hp & Hr).
+  - rewrite <- Hrk. apply rank_NoDup.
+  - intros y Hy. unfold ord in Hy. apply (Permutation_in _ (sort_preps_perm _)) in Hy.
+    apply in_map_iff in Hy as ([k' y'] & Hy1 & Hy2). simpl in Hy1. subst y'.
+    destruct (PIa_entries k' y Hy2) as (v & _ & Hv & ->). simpl. rewrite Hv.
+    change k' with (fst (k', base_prep br v)). apply in_map. assumption.
+  - assumption.
+  - rewrite load_unfold. unfold pi_init_accumulated. simpl.
+    rewrite aget_fold_update by apply R_NoDup.
+    change (set_ranks 0 (sort_preps (map snd (pi_preps PIa))) (pi_preps PIa)) with (set_ranks 0 ord (pi_preps PIa)).
+    rewrite Hp. destruct (memb (p_owner x) _); simpl; eexists; (split; [reflexivity|]); simpl; lia.
+Qed.
+
+Lemma unelected_not_rewardable k p :
+  In k (keys (pi_preps PI0)) -> ~ In k R -> aget k (pi_preps PI1) = Some p -> is_rewardable E p = false.
+Proof.
+  intros Hk HnR Hp. rewrite PI0_keys in Hk.
+  apply (Permutation_in _ (Permutation_sym rank_perm)) in Hk.
+  apply In_nth_error in Hk as [j Hj].
+  pose proof (nth_error_firstn_ge (elected_n E) _ j k Hj rank_NoDup HnR) as Hge.
+  destruct (loaded_rank j k Hj) as (s & Hs & Hr).
+  rewrite (PI1_get k s Hs) in Hp. inversion Hp; subst p.
+  pose proof (prep_fold_frame br L k evs s) as Hfr. unfold frame in Hfr.
+  assert (F2 : p_rank (fold_left (prep_step br L k) evs s) = p_rank s) by congruence.
+  unfold is_rewardable. rewrite F2, Hr.
+  pose proof (wf_elected i WF) as HE0. fold E in HE0. unfold elected_n in Hge.
+  assert ((Z.of_nat j <? E) = false) as -> by lia.
+  rewrite andb_false_r. reflexivity.
+Qed.
+
+Lemma voted_amounts_out k : ~ In k (map v_addr (i_voted i)) -> voted_amounts i k = (0, 0).
+Proof.
+  intros Hk. unfold voted_amounts. destruct (find _ _) eqn:Ef; [|reflexivity].
+  apply find_some in Ef as [Ef1 Ef2]. apply N.eqb_eq in Ef2. exfalso. apply Hk. rewrite <- Ef2. apply in_map; assumption.
+Qed.
+
+Lemma ghost_accv k p :
+  ~ In k (keys (pi_preps PI0)) -> aget k (pi_preps PI1) = Some p -> p_accp p <= p_accv p.
+Proof.
+  intros Hk Hp. pose proof (proj2 (aget_None_keys k (pi_preps PI0)) Hk) as Hn.
+  pose proof (prep_run_ok k) as Hrun. rewrite PI0_keys in Hk. rewrite (voted_amounts_out k Hk) in Hrun. simpl in Hrun.
+  pose proof (wf_limit i WF) as Hl. fold L in Hl.
+  pose proof (ghost_inv br L Hbr0 k evs PI0 0 Hn Hrun (wf_offsets i WF) (wf_events i WF) Hl) as Hg.
+  rewrite <- PI1_preps, Hp in Hg. destruct Hg as (o' & Ho' & Hinv).
+  pose proof (pinv_power br L Hbr0 _ _ Hinv) as Hpw.
+  destruct Hinv as (_ & _ & _ & _ & Hc). nia.
+Qed.
+
+Lemma rewardable_accv_pos k p :
+  aget k (pi_preps PI2) = Some p -> is_rewardable E p = true -> 0 < p_accv p.
+Proof.
+  intros Hp Hr. destruct (in_dec N.eq_dec k R) as [Hk|Hk].
+  - destruct (split_elected k Hk) as (p' & Hp' & _ & _ & _ & Hpos & _).
+    rewrite Hp in Hp'. inversion Hp'; subst p'. apply Hpos; assumption.
+  - rewrite PI2_get in Hp. pose proof Hk as Hk'. apply memb_false in Hk'. rewrite Hk' in Hp.
+    destruct (in_dec N.eq_dec k (keys (pi_preps PI0))) as [Hin|Hnin].
+    + rewrite (unelected_not_rewardable k p Hin Hk Hp) in Hr. discriminate.
+    + pose proof (ghost_accv k p Hnin Hp). unfold is_rewardable in Hr. lia.
+Qed.
+
+Lemma reward_no_panic : pi_reward_panics E PI1 = false.
+Proof.
+  unfold pi_reward_panics. destruct (existsb _ _) eqn:Ex; [|reflexivity].
+  apply existsb_exists in Ex as (k & Hk & Hrk). rewrite PI1_elected in Hk.
+  unfold rewardable_key in Hrk. destruct (aget k (pi_preps PI1)) as [s|] eqn:Es; [|discriminate].
+  pose proof (accp_le_total k Hk) as Hle. unfold accp_of in Hle. rewrite Es in Hle.
+  unfold is_rewardable in Hrk. apply andb_true_iff in Hrk as [_ Hrk]. unfold total in Hle.
+  rewrite andb_true_l. destruct (pi_total PI1 =? 0) eqn:E0; [lia|reflexivity].
+Qed.
+
+Lemma voters_no_panic : voters_panic i PI2 = false.
+Proof.
+  assert (Hcase : forall kv, voter_share_panics E (pi_preps PI2) kv = false).
+  { intros [k av]. unfold voter_share_panics. cbn [fst].
+    destruct (aget k (pi_preps PI2)) eqn:Ep; [|reflexivity].
+    destruct (is_rewardable E p) eqn:Er; [|reflexivity].
+    pose proof (rewardable_accv_pos k p Ep Er). rewrite andb_true_l. lia. }
+  unfold voters_panic. destruct (existsb _ _) eqn:Ex; [|reflexivity]. exfalso.
+  apply existsb_exists in Ex as (v & _ & Ex). apply existsb_exists in Ex as (kv & _ & Hp).
+  change (i_elected i) with E in Hp. rewrite Hcase in Hp. discriminate.
+Qed.
+
 Hypothesis HE : E <> 0.
 
 (* wages <= the Iwage period budget *)
@@ -1814,6 +2037,15 @@ Proof.
     + repeat split; try lia; try assumption.
   - apply memb_false in Ek. destruct (PI2_outside i Hwf k p Hin Ek) as (H1 & H2 & _). simpl andb. cbv zeta.
     rewrite H1, H2. repeat split; try lia.
+Qed.
+
+(* the model's [RPanic] (a division by zero in the Go code) does not happen on well-formed terms *)
+Theorem no_panic i : wf_inputb i = true -> calculate i <> RPanic.
+Proof.
+  intros Hwf. apply wf_inputb_wf in Hwf. unfold calculate.
+  destruct (update_voting_ok i) eqn:UV; simpl; [|discriminate].
+  destruct (i_elected i =? 0); [discriminate|].
+  rewrite (reward_no_panic i Hwf UV), (voters_no_panic i Hwf UV). discriminate.
 Qed.
 
 (* ================================================================== non-vacuity *)
